@@ -64,6 +64,18 @@ TypedValue evaluate_binary_op_typed(
     const InferredType &inferred_type,
     std::function<TypedValue(const ASTNode *)> evaluate_typed_func) {
     TypedValue left_value = evaluate_typed_func(node->left.get());
+
+    // 短絡評価: && / || は左オペランドで結果が決まる場合、右オペランドを評価しない
+    if (node->op == "&&" || node->op == "||") {
+        bool left_truthy = left_value.is_floating()
+                               ? left_value.as_double() != 0.0
+                               : left_value.as_numeric() != 0;
+        if ((node->op == "&&") != left_truthy) {
+            return TypedValue(static_cast<int64_t>(left_truthy ? 1 : 0),
+                              ensure_type(inferred_type, TYPE_BOOL, "bool"));
+        }
+    }
+
     TypedValue right_value = evaluate_typed_func(node->right.get());
 
     // ポインタ演算のチェック（加算のみ）
